@@ -40,5 +40,5 @@ PROP = {'gen': ['base64'],
                   HARNESS],
  'assumptions': ['attribute sets are an underline style (0..5) plus flags, i.e. the values FaceAttrs::pack can produce',
                  'an image in memory has h*w pixels of 4 bytes with 4*h*w < 2^64; 64-bit usize',
-                 'documents reach the visitors through serde_json (text nested deeper than 128 levels is rejected by its parser)',
-                 'flex factors written in view documents are positive (non-positive factors are a C10 matter)']}
+                 'documents reach the visitors through serde_json (text nested deeper than 128 levels is rejected by its parser)'
+                 ]}
